@@ -12,7 +12,7 @@ func init() {
 		Explanation: "Decides the 'one atomic write per applied entry, including the applied index' mechanism and the recovery path: (R1) applyAdd issues exactly one Store.Mutate whose batch holds the tree mutations and the FSM-state marker, with {previous,new} version metadata, publishes the in-memory state after it and aborts on any failure; " +
 			"(R2) that is the only store write of the node (single writer); (R3) RocksDBStore.Mutate puts every mutation into one write batch (log data first) and writes once; (R4) the replay filter (finite order model) guards applyAdd; (R5) start-up recovers balloon and FSM state before raft starts and returns their errors; " +
 			"(R6) error discipline on the recovery path; (R7) caches are rebuilt from the store on open (constructors must-call RefreshVersion / RebuildCache; rebuild consumes exactly what was read).",
-		Added:       "Also (R7) one recovery level for writers and rebuild, tiles persisted whenever cached; (R8) no store write bypasses the write-ahead log; the transfer load succeeds only on io.EOF (R6). Third round: (R5) loadState installs the state it decoded; (R1) nothing on the apply path recovers; (R7) a reader reports an error only together with an empty chunk.",
+		Added:       "Also (R7) one recovery level for writers and rebuild, tiles persisted whenever cached; (R8) no store write bypasses the write-ahead log; the transfer load succeeds only on io.EOF (R6). Third round: (R5) loadState installs the state it decoded; (R1) nothing on the apply path recovers; (R7) a reader reports an error only together with an empty chunk. Fifth round: the leader-side transfer filter is decided by the order model for this property too.",
 		Assumptions: []string{"RocksDB write batches are atomic and durable as configured", "raft replays committed entries after restart"},
 		Declined:    "behaviour at arbitrary SIGKILL instants, torn writes, that acknowledged snapshots remain verifiable (raft/RocksDB durability).",
 	}, runC07)
